@@ -337,6 +337,11 @@ def run(check, ctx):
                              method_models={"new": mm_hash_new, "digest": mm_digest},
                              domain=I(0, None), extra_points=(HL, HL + 1), exc="TypeError",
                              also_ok_exc=("ValueError",), cite="RFC 8018 5.1 step 1: dkLen <= hLen"))
+    run_row(check, repo, Row("pbkdf1.count", "C12", KDF, "PBKDF1", I(1, None), INT("count"),
+                             base={"password": b"pw", "salt": b"saltsalt", "dkLen": 16, "hashAlgo": HM},
+                             method_models={"new": mm_hash_new, "digest": mm_digest},
+                             domain=I(-3, 40), extra_points=(-1, 0, 1, 2), exact=False,
+                             cite="RFC 8018 5.1: the iteration count c is a positive integer (a count <= 0 must not be computed as c = 1)"))
     run_row(check, repo, Row("pbkdf1.salt", "C12", KDF, "PBKDF1", S(8), LEN("salt"),
                              base={"password": b"pw", "dkLen": 16, "count": 1, "hashAlgo": HM},
                              method_models={"new": mm_hash_new, "digest": mm_digest},
@@ -353,11 +358,16 @@ def run(check, ctx):
                              cite="RFC 7914 2: N a power of two larger than 1; the native ROMix takes a 32-bit N"))
     for r in (8, 1):
         lim = ((2 ** 32 - 1) * 32) // (128 * r)
-        run_row(check, repo, Row("scrypt.p.%d" % r, "C12", KDF, "scrypt", I(None, lim), INT("p"),
+        run_row(check, repo, Row("scrypt.p.%d" % r, "C12", KDF, "scrypt", I(1, lim), INT("p"),
                                  base={"password": b"pw", "salt": b"s", "key_len": 16, "N": 1024, "r": r, "num_keys": 1},
                                  models={"Crypto.Protocol.KDF.PBKDF2": lambda i, a, kw, st, node: ABytes(None)},
-                                 domain=I(1, None), extra_points=(lim, lim + 1), max_depth=1,
-                                 cite="RFC 7914 2: p <= ((2^32-1) * 32) / (128 * r)"))
+                                 extra_points=(-1, 0, 1, lim, lim + 1), max_depth=1,
+                                 cite="RFC 7914 2: p a positive integer <= ((2^32-1) * 32) / (128 * r) (p <= 0 would skip the memory-hard stage: the key no longer depends on the salt)"))
+    run_row(check, repo, Row("scrypt.r", "C12", KDF, "scrypt", I(1, None), INT("r"),
+                             base={"password": b"pw", "salt": b"s", "key_len": 16, "N": 1024, "p": 1, "num_keys": 1},
+                             models={"Crypto.Protocol.KDF.PBKDF2": lambda i, a, kw, st, node: ABytes(None)},
+                             domain=I(-4, 64), extra_points=(-1, 0, 1, 8), max_depth=1, exact=False,
+                             cite="RFC 7914 2: the block size parameter r is a positive integer"))
     # ---- bcrypt -----------------------------------------------------------------------------------------------
     ekm = {"Crypto.Cipher._EKSBlowfish.new": lambda i, a, kw, st, node: i.new_obj(st, label="eks")}
     run_row(check, repo, Row("bcrypt.cost", "C12", KDF, "bcrypt", I(4, 31), INT("cost"),
@@ -410,6 +420,9 @@ def run(check, ctx):
     # the native PBKDF2 inner loops with an uninterpreted hash
     from . import c_pbkdf2
     c_pbkdf2.pbkdf2_tables(check, ctx)
+    # the native scrypt ROMix and its Salsa20/8 core against RFC 7914
+    from . import c_salsa
+    c_salsa.salsa_tables(check, ctx, groups=("scrypt",))
     check.floor("K-sym", 6)
-    check.undecided.append("derived bytes of the other native fast paths (scrypt ROMix, EKSBlowfish); "
+    check.undecided.append("derived bytes of the EKSBlowfish core (native); scrypt ROMix outside the (r, N) table; "
                            "the hash and MAC functions themselves (C03)")
